@@ -40,7 +40,19 @@ def prepare(tier):
 
 @st.composite
 def handler_cfg(draw, metrics):
-    return {"std": draw(st.sampled_from(RES)), "metrics": {m: [draw(st.sampled_from(RES)) for _ in range(4)] for m in metrics}}
+    """'metrics' holds the effective value of each scenario; 'via_default' says, per metric, which
+    of them the constructor receives through default_result instead of its own argument."""
+    cfg = {"std": draw(st.sampled_from(RES)), "metrics": {m: [draw(st.sampled_from(RES)) for _ in range(4)] for m in metrics}}
+    via = {}
+    for m in metrics:
+        if draw(st.integers(0, 2)) == 0:
+            default = draw(st.sampled_from(RES))
+            explicit = [draw(st.booleans()) for _ in range(4)]
+            cfg["metrics"][m] = [v if e else default for v, e in zip(cfg["metrics"][m], explicit)]
+            via[m] = [default, explicit]
+    if via:
+        cfg["via_default"] = via
+    return cfg
 
 
 @st.composite
